@@ -171,6 +171,11 @@ func checkC07(p *core.Program, r *core.Report) {
 					structural = true
 				}
 			}
+			// a replacement anywhere in the text (as opposed to a trim at its ends) changes string contents
+			// whatever the pattern is - e.g. deleting every 0x00 byte instead of trimming trailing ones
+			if kind == "replace" {
+				structural = true
+			}
 			if !structural {
 				return
 			}
@@ -484,6 +489,50 @@ func checkC07(p *core.Program, r *core.Report) {
 				}
 			}
 		})
+		// ... and only for scalars: a return of the input itself is reached only after both container type tests failed
+		{
+			notContainer := func(kind string) core.EdgeFilter {
+				return func(b *ssa.BasicBlock, idx int) bool {
+					i := core.BlockIf(b)
+					if i == nil {
+						return false
+					}
+					v, truth := core.Truth(i.Cond, idx)
+					ex, ok := v.(*ssa.Extract)
+					if !ok || ex.Index != 1 || truth {
+						return false
+					}
+					ta, ok := ex.Tuple.(*ssa.TypeAssert)
+					if !ok {
+						return false
+					}
+					switch kind {
+					case "object":
+						return core.TypeIs(ta.AssertedType, "gitlab.com/c0b/go-ordered-json", "OrderedMap")
+					default:
+						if s, ok := ta.AssertedType.Underlying().(*types.Slice); ok {
+							_, isI := s.Elem().Underlying().(*types.Interface)
+							return isI
+						}
+					}
+					return false
+				}
+			}
+			badRet := false
+			core.EachInstr(rw, func(in ssa.Instruction) {
+				ret, ok := in.(*ssa.Return)
+				if !ok || len(ret.Results) != 1 || core.Canon(core.ResultOf(ret, 0)) != ssa.Value(rw.Params[0]) {
+					return
+				}
+				if !core.Guarded(ret, notContainer("object")) || !core.Guarded(ret, notContainer("array")) {
+					badRet = true
+					r.Fail(R3, name+" returns its input only for scalars", p.Pos(ret.Pos()), "the rewrite can return a container unchanged (e.g. behind a depth limit): objects below that point keep their plain multi-member form on the wire, and the inverse transform then merges neighbouring objects of an array")
+				}
+			})
+			if !badRet {
+				r.OK(R3, name+" returns its input only for scalars", p.Pos(rw.Pos()), "the identity return sits behind both failed container type tests")
+			}
+		}
 		if okDefault {
 			r.OK(R3, name+" returns scalars unchanged", p.Pos(rw.Pos()), "default case returns its input")
 		} else {
